@@ -36,6 +36,7 @@ theorem captionCommand_untouched (s : St) (c1 c2 : Nat) (f2 : Bool) (i : Nat)
   all_goals first
     | rfl
     | exact modCh_get_ne s _ h1
+    | exact modCh_get_ne s _ (by unfold edmChan; split <;> assumption)
     | exact switchChannel_get_ne s _ h1
     | (rw [modCh_get_ne _ _ h2]; exact switchChannel_get_ne s _ h1)
     | (rw [modCh_get_ne _ _ h3]; exact switchChannel_get_ne s _ h1)
